@@ -1,7 +1,8 @@
 import SgVerif.C10.Mono2
+import SgVerif.C10.Wd
 /-
 C10 helper lemmas, part 11: `killed_on_host_off` — `wannadie` is never reset, by any event; `Host::turn_off` marks every
-live actor of the host; `ActorImpl::exit` runs for it unless `unregister_first_simcall` marked it first.
+live actor of the host; `ActorImpl::exit` runs for it (`unregister_first_simcall` no longer marks anybody: Wd.lean).
 -/
 set_option linter.unusedSimpArgs false
 set_option linter.unusedVariables false
@@ -55,81 +56,65 @@ theorem hostOff_wd (s : St) (h a : Nat) (hon : s.hostOn h = true) (ha : a < s.nA
   · rw [m1.host]; exact hh
   · rw [m1.ended]; exact he
 
-/-! ### `ActorImpl::exit` really runs (`Obs.kill`) unless the actor was marked by `unregister_first_simcall` first -/
+/-! ### `ActorImpl::exit` really runs (`Obs.kill`) for every live actor of the host
+`unregister_first_simcall` does not mark anybody dying any more (`wdEq_finish`), so the `exit()` of one actor of the host
+leaves the `wannadie` flag of the other ones alone, whatever they wait on together. -/
 
-/-- no actor of host `h` other than `a` waits on an activity on which `a` is registered -/
+/-- No actor of host `h` other than `a` waits on an activity on which `a` is registered.  This was the hypothesis that
+`host-off-marks-peer-dying-without-exit` made necessary before the fix (kept for the regression statements only). -/
 def Private (t : St) (h a : Nat) : Prop :=
   ∀ c j, c ≠ a → (t.actors c).host = h → j ∈ (t.actors c).waiting → a ∉ (t.acts j).simcalls
 
-theorem private_mono {t t' : St} {h a : Nat} (m : Mono t t') (p : Private t h a) : Private t' h a := by
-  intro c j hc hh hj hs
-  exact p c j hc (by rw [← m.host]; exact hh) (m.wsub c j hj) (m.ssub a j hs)
-
-/-- `finish` on an activity on which `a` is not registered leaves `a`'s `wannadie` alone -/
-theorem finish_wd_frame (t : St) (k a : Nat) (hm : a ∉ (t.acts k).simcalls) :
-    ((finish t k).actors a).wannadie = (t.actors a).wannadie := by
-  have := ((finish_ok t k).miss a hm).1
-  simp only [coreOf, Prod.mk.injEq] at this
-  exact this.2.2
+/-- `finish` leaves everybody's `wannadie` alone -/
+theorem finish_wd_frame (t : St) (k a : Nat) : ((finish t k).actors a).wannadie = (t.actors a).wannadie :=
+  wdEq_finish t k a
 
 theorem simp_wd {a : Nat} {t t' : St} (h : Simp a t t') : (t'.actors a).wannadie = (t.actors a).wannadie := by
   have := h.core
   simp only [coreOf, Prod.mk.injEq] at this
   exact this.2.2
 
-theorem exitWaiting_wd_frame (b : Nat) (t : St) (k0 a : Nat) (hm : a ∉ (t.acts k0).simcalls) :
+theorem exitWaiting_wd_frame (b : Nat) (t : St) (k0 a : Nat) :
     ((exitWaiting b t k0).actors a).wannadie = (t.actors a).wannadie := by
   unfold exitWaiting
   simp only []
   have s1 : Simp a t ((cancel t k0).setAct k0 (fun x => { x with state := .failed })) :=
     (simp_cancel a t k0).trans (simp_setAct_state a _ k0 _)
-  have hm' : a ∉ (((cancel t k0).setAct k0 (fun x => { x with state := .failed })).acts k0).simcalls := by
-    rw [s1.simc]; exact hm
   have s3 := simp_setActor_frame a (finish ((cancel t k0).setAct k0 (fun x => { x with state := .failed })) k0) b
     (fun x => { x with activities := x.activities.erase k0 }) (fun x => ⟨rfl, rfl, rfl⟩)
-  rw [simp_wd s3, finish_wd_frame _ k0 a hm', simp_wd s1]
+  rw [simp_wd s3, finish_wd_frame _ k0 a, simp_wd s1]
 
-theorem exitLoop_wd_frame (b a : Nat) (hb : b ≠ a) (n : Nat) : ∀ t,
-    (∀ j, j ∈ (t.actors b).waiting → a ∉ (t.acts j).simcalls) →
+theorem exitLoop_wd_frame (b a : Nat) (n : Nat) : ∀ t,
     ((exitLoop b n t).actors a).wannadie = (t.actors a).wannadie := by
   induction n with
-  | zero => intro t _; rfl
+  | zero => intro t; rfl
   | succ n ih =>
-    intro t hp
+    intro t
     unfold exitLoop
     split
     · rfl
     · rename_i k0 hk0
-      have hk0m : k0 ∈ (t.actors b).waiting := List.mem_of_getLast? hk0
       have s1 : Simp a t (t.setActor b (fun x => { x with waiting := x.waiting.dropLast })) :=
         simp_setActor_frame a t b _ (fun x => ⟨rfl, rfl, rfl⟩)
-      have m1 : Mono t (t.setActor b (fun x => { x with waiting := x.waiting.dropLast })) :=
-        mono_setActor t b _ (fun x => ⟨rfl, rfl, id, fun j h => List.dropLast_subset _ h⟩)
-      have m2 := mono_exitWaiting b (t.setActor b (fun x => { x with waiting := x.waiting.dropLast })) k0
-      rw [ih _ (fun j hj hs => hp j (m1.wsub b j (m2.wsub b j hj)) (m1.ssub a j (m2.ssub a j hs))),
-        exitWaiting_wd_frame b _ k0 a (by rw [s1.simc]; exact hp k0 hk0m), simp_wd s1]
+      rw [ih _, exitWaiting_wd_frame b _ k0 a, simp_wd s1]
 
-theorem actorExit_wd_frame (t : St) (b a : Nat) (hb : b ≠ a)
-    (hp : ∀ j, j ∈ (t.actors b).waiting → a ∉ (t.acts j).simcalls) :
+theorem actorExit_wd_frame (t : St) (b a : Nat) (hb : b ≠ a) :
     ((actorExit t b).actors a).wannadie = (t.actors a).wannadie := by
   unfold actorExit
   simp only []
   have s1 : Simp a t (t.setActor b (fun x => { x with wannadie := true })) := simp_setActor_ne a t b _ hb
-  have hw : ((t.setActor b (fun x => { x with wannadie := true })).actors b).waiting = (t.actors b).waiting := by
-    simp [St.setActor]
-  have e2 := exitLoop_wd_frame b a hb ((t.setActor b (fun x => { x with wannadie := true })).actors b).waiting.length
-    (t.setActor b (fun x => { x with wannadie := true })) (fun j hj => by rw [s1.simc]; exact hp j (by rw [← hw]; exact hj))
+  have e2 := exitLoop_wd_frame b a ((t.setActor b (fun x => { x with wannadie := true })).actors b).waiting.length
+    (t.setActor b (fun x => { x with wannadie := true }))
   rw [simp_wd (simp_emit a _ (.kill b)), simp_wd (simp_setActor_ne a _ b _ hb),
     simp_wd (simp_foldl a cancel (simp_cancel a) _ _), e2, simp_wd s1]
 
-theorem killOn_wd_frame (h : Nat) (t : St) (c a : Nat) (hc : c ≠ a) (p : Private t h a) :
+theorem killOn_wd_frame (h : Nat) (t : St) (c a : Nat) (hc : c ≠ a) :
     ((killOn h t c).actors a).wannadie = (t.actors a).wannadie := by
   unfold killOn kill
   split
-  · rename_i hcond
-    split
+  · split
     · rfl
-    · exact actorExit_wd_frame t c a hc (fun j hj => p c j hc hcond.1 hj)
+    · exact actorExit_wd_frame t c a hc
   · rfl
 
 theorem newIn_emit_of_ext (t u : St) (o : Obs) (e : Ext t u) : newIn t (u.emit o) o := by
@@ -144,13 +129,13 @@ theorem actorExit_kill_new (t : St) (a : Nat) : newIn t (actorExit t a) (.kill a
   apply newIn_emit_of_ext
   exact (((ext_setActor t a _).trans (ext_exitLoop a _ _)).trans (ext_foldl cancel ext_cancel _ _)).trans (ext_setActor _ _ _)
 
-/-- the kill loop: `ActorImpl::exit` runs for `a` (live, on `h`, `Private`) -/
+/-- the kill loop: `ActorImpl::exit` runs for `a` (live, on `h`) -/
 theorem killFold_kill_new (h a : Nat) (L : List Nat) : ∀ t, a ∈ L → (t.actors a).host = h → (t.actors a).ended = false →
-    (t.actors a).wannadie = false → Private t h a → newIn t (L.foldl (killOn h) t) (.kill a) := by
+    (t.actors a).wannadie = false → newIn t (L.foldl (killOn h) t) (.kill a) := by
   induction L with
   | nil => intro t hm; cases hm
   | cons c cs ih =>
-    intro t hm hh he hw hp
+    intro t hm hh he hw
     simp only [List.foldl_cons]
     by_cases hc : a = c
     · subst hc
@@ -165,14 +150,11 @@ theorem killFold_kill_new (h a : Nat) (L : List Nat) : ∀ t, a ∈ L → (t.act
         · exact h'
       have m := mono_killOn h t c
       have := ih (killOn h t c) hin (by rw [m.host]; exact hh) (by rw [m.ended]; exact he)
-        (by rw [killOn_wd_frame h t c a (Ne.symm hc) hp]; exact hw) (private_mono m hp)
+        (by rw [killOn_wd_frame h t c a (Ne.symm hc)]; exact hw)
       exact newIn_of_ext_left _ (ext_killOn h t c) this
 
-theorem simp_private {a h : Nat} {t t' : St} (hs : ∀ b, Simp b t t') (hm : Mono t t') (p : Private t h a) : Private t' h a :=
-  private_mono hm p
-
 theorem hostOff_kill_new (s : St) (h a : Nat) (hon : s.hostOn h = true) (ha : a < s.nActors) (hh : (s.actors a).host = h)
-    (he : (s.actors a).ended = false) (hw : (s.actors a).wannadie = false) (hp : Private s h a) :
+    (he : (s.actors a).ended = false) (hw : (s.actors a).wannadie = false) :
     newIn s (hostOff s h) (.kill a) := by
   rw [hostOff_eq s h hon]
   have m0 : Mono s ({ s with hostOn := upd s.hostOn h false } : St) :=
@@ -189,7 +171,6 @@ theorem hostOff_kill_new (s : St) (h a : Nat) (hon : s.hostOn h = true) (ha : a 
     · rw [m1.host]; exact hh
     · rw [m1.ended]; exact he
     · rw [simp_wd sp1]; exact hw
-    · exact private_mono (m0.trans m1) hp
   have k4 := newIn_of_ext_right _ (simp_maestroPhase a h _).ext k3
   have k5 := newIn_of_ext_left _ sp1.ext k4
   exact k5
